@@ -1722,9 +1722,15 @@ tpt_ev_add(tpt_p tpt, tp_event_p ev, tp_udata_p tp_udata) {
 		 * (kernel removed it): error is not an error. */
 		struct epoll_event epev_old;
 
-		memset(&epev_old, 0x00, sizeof(epev_old));
-		epoll_ctl((int)tpt_old->io_fd, EPOLL_CTL_DEL,
-		    (int)tp_udata->ident, &epev_old);
+		/* tpt_old is looked at only if it is one of this pool threads:
+		 * record from destroyed / other pool keeps dangling pointer. */
+		if (tpt_old == tpt->tp->pvt ||
+		    (((uintptr_t)tpt_old) >= ((uintptr_t)&tpt->tp->threads[0]) &&
+		     ((uintptr_t)tpt_old) < ((uintptr_t)&tpt->tp->threads[tpt->tp->s.threads_max]))) {
+			memset(&epev_old, 0x00, sizeof(epev_old));
+			epoll_ctl((int)tpt_old->io_fd, EPOLL_CTL_DEL,
+			    (int)tp_udata->ident, &epev_old);
+		}
 		tp_udata->tpdata = 0;
 	}
 
